@@ -424,6 +424,7 @@ def _focused(V, tier, prop, progs, checks=("result", "boundary", "link"), pertur
 
 
 def C07(V, tier):
+    op_replay(V, workdir("C07r"), tier, "C07", ["fold", "kfold"])
     rng = random.Random(seed() + 7)
     _focused(V, tier, "C07", gen.agg_programs(rng, 70 if tier == "quick" else 700), checks=("result",))
 
@@ -511,6 +512,80 @@ def binary_replay(V, wd, tier, prop, ops):
         V.sample({"arrival_order": meta[recs[0]["id"]]["order"], "op": recs[0]["op"], "result": recs[0]["res"]})
 
 
+def op_replay(V, wd, tier, prop, ops):
+    """Timestamped scripts (comp/Start.tla, one sender) through a real stateful operator; OpCheck.tla judges.
+    ops: list of (name, nodes-builder) with name in reorder | fold | kfold."""
+    from common import run_jobs, read_trace, split_trace_files, validate_parallel
+    import replay_start as rs
+    rng = random.Random(seed() + 77)
+    q = tier == "quick"
+    r = tlc_check(f"{SPEC}/comp/Start.tla", f"{SPEC}/gen/Start_gen_one.cfg", wd, "gen_one", workers=6,
+                  coverage=False, timeout=900)
+    behs = r["replays"]
+    V.add_model(r, "Start_gen_one")
+    V.coverage["scripts_enumerated"] = len(behs)
+    rng.shuffle(behs)
+    behs = behs[: (700 if q else 12000)]
+    jobs, meta = [], {}
+    for bi, b in enumerate(behs):
+        script = [rs.el_to_script(ev["el"], None) for ev in b["h"] if ev["d"] == "in"]
+        for e in script:
+            e.pop("after", None)
+        for op in ops:
+            m = 0
+            if op == "reorder":
+                mid = [{"id": "o", "op": "reorder", "in": ["s"]}]
+            elif op == "fold":
+                mid = [{"id": "o", "op": "fold", "agg": "sum", "in": ["s"]}]
+            else:
+                m = rng.choice([1, 2, 3])
+                mid = [{"id": "g", "op": "key_by", "m": m, "in": ["s"]}, {"id": "o", "op": "kfold", "agg": "sum", "in": ["g"]}]
+            nodes = [{"id": "s", "op": "src", "kind": "script", "repl": "one", "scripts": [script]}] + mid + \
+                    [{"id": "k", "op": "sink", "kind": "collect_vec", "in": ["o"]}]
+            jid = f"o{bi}_{op}"
+            jobs.append({"id": jid, "prog": {"nodes": nodes}, "cfg": {"mode": "local", "par": 1},
+                         "batch": rng.choice(["single", "default", "fixed:2"]), "trace": True, "keep": ["probe"],
+                         "hang_ms": 15000})
+            meta[jid] = {"op": op, "m": m}
+    results, traces = run_jobs(jobs, wd, timeout=1200)
+    recs = []
+    jb = {j["id"]: j for j in jobs}
+    for t in traces:
+        cur, h = None, []
+        for e in read_trace(t):
+            ev = e.get("ev")
+            if ev == "job":
+                cur, h = e["id"], []
+            elif ev == "probe" and e["id"] in ("s", "o"):
+                el = e["el"]
+                v = el.get("v", 0)
+                h.append({"d": "in" if e["id"] == "s" else "out",
+                          "el": {"k": el["k"], "v": v if v is not None else 0, "ts": el.get("ts", 0)}})
+            elif ev in ("done", "hang"):
+                res = results.get(cur, {})
+                if ev == "hang" or res.get("hang"):
+                    V.add_violation({"prop": prop, "kind": "job_hang", "job": cur}, replay=jb.get(cur))
+                elif not jobsuite.job_ok(res):
+                    V.add_violation({"prop": prop, "kind": "job_panic", "job": cur, "panics": res.get("panics", [])[:2]},
+                                    replay=jb.get(cur))
+                else:
+                    recs.append({"ev": "case", "id": cur, "op": meta[cur]["op"], "m": meta[cur]["m"], "h": h})
+                    recs.append({"ev": "done", "id": cur})
+    files = split_trace_files(recs, wd, "opcheck", max_events=500)
+    viols, consumed, states, _ = validate_parallel("OpCheck", files, wd)
+    for v in viols:
+        if v["prop"] == prop:
+            V.add_violation(v, replay=jb.get(v["job"]))
+        else:
+            V.coverage.setdefault("other_property_violations", []).append({k: v[k] for k in ("prop", "kind", "job")})
+    V.coverage["states"] += states
+    V.coverage["transitions"] += states
+    V.coverage["traces_validated_against_impl"] += len(recs) // 2
+    V.coverage["operator_scripts_replayed"] = len(recs) // 2
+    if recs:
+        V.sample({"op": recs[0]["op"], "history": recs[0]["h"]})
+
+
 JOIN_VARIANTS = [("join", {"ship": s, "local": l, "variant": v}) for s in ("hash", "bcast") for l in ("hash", "sortmerge")
                  for v in (("inner", "left", "outer") if s == "hash" else ("inner", "left"))]
 
@@ -529,6 +604,7 @@ def C09(V, tier):
 
 
 def C16(V, tier):
+    op_replay(V, workdir("C16r"), tier, "C16", ["reorder"])
     rng = random.Random(seed() + 16)
     progs = gen.ordered_programs(rng, 40 if tier == "quick" else 300, big=(tier != "quick"))
     matrix = [({"mode": "local", "par": 1}, b) for b in ("default", "single", "fixed:1", "fixed:3", "fixed:1024", "adaptive:2:500")]
